@@ -57,6 +57,11 @@ func (g *reGen) atom(d int) string {
 		return "é"
 	case 12:
 		return "\\n"
+	case 13:
+		// an escaped metacharacter (brackets that are not balanced, a backslash
+		// that may come last before the closing slash) or a class holding one
+		g.tags["escaped-metacharacter"] = true
+		return r.Pick("\\(", "\\)", "\\[", "\\]", "\\{", "\\}", "\\\\", "\\.", "\\*", "\\+", "\\?", "\\|", "\\^", "\\$", "[(]", "[)]", "[\\]]", "[\\\\]", "[{]", "[}(]")
 	}
 	return r.Pick("a", "b")
 }
@@ -101,7 +106,7 @@ func (g *reGen) alt(d int) string {
 	return s
 }
 
-var c17SubjAlpha = []string{"a", "b", "c", "/", "\n", "é", "a", "b", "A"}
+var c17SubjAlpha = []string{"a", "b", "c", "/", "\n", "é", "a", "b", "A", "(", ")", "[", "]", "\\", "{", ".", "a", "b"}
 
 func (g *reGen) subject() string {
 	n := g.r.Intn(13)
